@@ -13,6 +13,9 @@ for sid in sorted(os.listdir(os.path.join(V, "seeded"))):
     out = subprocess.run(["python3-vt", os.path.join(V, "tools", "try_seed.py"), os.path.join(d, "patch.diff"), prop], capture_output=True, text=True, cwd=V).stdout
     rules = sorted({l.strip().split(" ")[0] for l in out.splitlines() if l.startswith("    C")})
     meta["detected_by"], meta["detected"] = rules, bool(rules)
+    if "--all" in sys.argv:
+        out2 = subprocess.run(["python3-vt", os.path.join(V, "tools", "try_seed.py"), os.path.join(d, "patch.diff")], capture_output=True, text=True, cwd=V).stdout
+        meta["detected_by_all_checks"] = sorted({l.strip().split(" ")[0] for l in out2.splitlines() if l.startswith("    C")})
     json.dump(meta, open(mp, "w"), indent=1)
     if not rules:
         missed += 1
